@@ -59,7 +59,7 @@ def run(ctx):
     if ctx.tier == "quick":
         cfgs, args = ["c20", "g14"], ["--seed", str(ctx.seed), "--nrandom", "40", "--nbhd", "12", "--sample-shift", "14", "--fchain", "2"]
     else:
-        cfgs, args = ["c20", "g14", "c14", "g20"], ["--seed", str(ctx.seed), "--nrandom", "2000", "--nbhd", "40", "--sample-shift", "14", "--fchain", "6"]
+        cfgs, args = ["c20", "g14", "c14", "g20"], ["--seed", str(ctx.seed), "--nrandom", "300", "--nbhd", "40", "--sample-shift", "14", "--fchain", "4"]      # the floating path logs every value: keep it to ~10^6 records
     recs, dropped, nprog = core.harness_farm(ctx, groups, make_src, cfgs, args, batch=12, tag="cast")
     sums = [r for r in recs if r["k"] in ("sum", "sumf")]
     obs = [r for r in recs if r["k"] in ("castii", "castf")]
